@@ -251,7 +251,15 @@ pub fn panic_signature(rec: &str) -> String {
 pub fn guarded<C>(check: &(dyn Fn(&C) -> CheckResult + Send + Sync), case: &C) -> CheckResult {
     match catch(|| check(case)) {
         Caught::Ok(r) => r,
-        Caught::Panic(rec) => Err(Fail::new(panic_signature(&rec), format!("panicked: {}", rec))),
+        Caught::Panic(rec) => {
+            // a panic located in the harness's own sources is a harness fault, not a finding
+            let loc = rec.rsplit_once(" @ ").map(|(_, l)| l).unwrap_or("");
+            if loc.starts_with("src/") || loc.contains("/verif/harness/src/") {
+                Err(Fail::inconclusive("harness-panic", format!("harness panicked: {}", rec)))
+            } else {
+                Err(Fail::new(panic_signature(&rec), format!("panicked: {}", rec)))
+            }
+        }
         Caught::Budget => Err(Fail::inconclusive("timer-budget", "scripted timer read budget exceeded outside a guarded call")),
     }
 }
